@@ -434,8 +434,8 @@ impl QuicConnection {
                                     error,
                                 }),
                                 Err(_) => Err(ConnectionError::Timeout {
-                                    protocol: None,
-                                    substream_id: None
+                                    protocol: Some(protocol),
+                                    substream_id: Some(substream_id)
                                 }),
                             }
                         }));
